@@ -1,7 +1,7 @@
-(* The generated OMEN level / keyspace code (gen/OmenLevel_gen.v: the translation
-   of the Python text of find_omen_level, _rec_calc_keyspace, calc_omen_keyspace
+(* The generated OMEN level code (gen/OmenLevel_gen.v: the translation
+   of the Python text of find_omen_level
    and OmenScorer.parse, redone on every run) equals the hand-written models of
-   OmenLevel.v / OmenKeyspace.v that the theorems of C11 / C18 are about.
+   OmenLevel.v that the theorems of C11 are about (the keyspace functions: OmenKeyspaceGenProofs.v).
 
    The equalities are stated for all inputs, under boolean well-formedness
    predicates on the tables ([lvl_wfb], [wf_scorerb], [closedb]) that say where
@@ -15,7 +15,7 @@
    meaning: the loop lemmas take the translated loop test and body as they are
    generated and compare them with the steps of the model. *)
 From Coq Require Import List Arith Bool NArith ZArith Lia.
-From Pcfg Require Import KernelRt OmenSpec OmenLevel OmenKeyspace OmenRt OmenLevelProofs OmenKeyspaceProofs.
+From Pcfg Require Import KernelRt OmenSpec OmenLevel OmenRt OmenLevelProofs.
 From PcfgGen Require Import OmenLevel_gen.
 Import ListNotations.
 
